@@ -115,7 +115,7 @@ def run(chk):
     tp = [dict(p, expect_v="", expect_p="") for p in progs]
     byid = {p["id"]: p for p in tp}
     trace, sums = vlib.record(chk, "toy31723", tp, "bind31723")
-    for cfgname, fl in (("Trace", vlib.flags(V=1)), ("TraceStatementBinding", vlib.flags())):
+    for cfgname, fl in (("TraceStatementBinding", vlib.flags()),):
         acc, rej = vlib.validate_traces(chk, trace, "toy31723", flags=fl, cfgname=cfgname)
         for rj in rej:
             pid = rj["run"][0].get("id")
@@ -140,7 +140,7 @@ def run(chk):
              "relabelled (before construction, in phase 1, inside a callback); each commitment's value or blinding changed; extra, missing, reordered "
              "commitment; each coefficient over a committed value and each constant changed; blinding base; value base - replayed on secq256k1, zorro, "
              "curve25519 (must be rejected; the value base only when a gate exists) and on toy31723, where TLC checks StatementBinding on the recorded "
-             "calls and recomputes the exact verdict for the deviating statement. distinct = (curve, base, deviation): %d deviations" % (len(progs) - 5),
+             "calls of both roles. distinct = (curve, base, deviation): %d deviations" % (len(progs) - 5),
         assumptions=["deviations are single; the verifier is built consistently with its own commitment list",
                      "toy31723: an acceptance of a deviating statement counts only if it repeats under two fresh seeds"])
 
